@@ -469,7 +469,7 @@ def gen_ab_cfg(seed: int) -> dict:
     n = rng.choice([10, 50, 200, 1000, 2000])
     extra = random.Random(seed ^ 0xAB5)
     if extra.random() < 0.03:
-        n = 70000 if os.environ.get('VERIF_TIER', 'quick') == 'quick' else extra.choice([70000, 140000, 300000])  # long-lived selectors: counters far beyond anything a test would reach
+        n = 70000 if os.environ.get('VERIF_TIER', 'quick') == 'quick' else extra.choice([70000, 100000, 140000])  # long-lived selectors: counters far beyond anything a test would reach
     cfg = {'seed': seed, 'mode': 'abtest', 'variants': [{'release': r, 'generation': g, 'target': t}
                                                         for (r, g), t in zip(chosen, targets)],
            'n': n, 'explicit': {'release': chosen[0][0], 'generation': chosen[0][1]}}
@@ -725,7 +725,7 @@ def run_seed(job) -> dict:
     if mode == 'abtest':
         cfg = gen_ab_cfg(seed)
         try:
-            res = runmod.fork_run(run_abtest, cfg, real_timeout=120, seed=cfg['seed'])
+            res = runmod.fork_run(run_abtest, cfg, real_timeout=480, seed=cfg["seed"])
         except runmod.RunFailed as err:
             out['harness'] = str(err)[:1500]
             return out
@@ -773,7 +773,7 @@ def reproduces(cfg: dict, schedule, klass: str) -> typing.Optional[dict]:
             result = runmod.fork_run(simulate_abtest_concurrent, cfg, schedule, real_timeout=240, seed=cfg['seed'])
             violations = judge_abtest_concurrent(cfg, result)
         elif cfg['mode'] == 'abtest':
-            res = runmod.fork_run(run_abtest, cfg, real_timeout=120, seed=cfg['seed'])
+            res = runmod.fork_run(run_abtest, cfg, real_timeout=480, seed=cfg["seed"])
             violations = res['violations']
         else:
             _, violations = execute_latest(cfg, schedule)
